@@ -163,8 +163,13 @@ func (f *Func) AssignIDs() error {
 				got := n.ID()
 				return errors.Errorf("invalid local ID in function %q, expected %s, got %s", f.Ident(), enc.LocalID(want), enc.LocalID(got))
 			}
-			verifTrace("setid", n, n.ID(), id)
-			n.SetID(id)
+			// Write the ID only when it changes: concurrent printers read the IDs
+			// without holding the mutex, and an unconditional store of the value
+			// that is already there is a data race with those reads.
+			if n.ID() != id {
+				verifTrace("setid", n, n.ID(), id)
+				n.SetID(id)
+			}
 			id++
 		}
 		return nil
